@@ -16,10 +16,11 @@ filter no converted helper name is shown, without it every helper symbol is show
 parser (regular expressions + a bracket/quote scanner) says whether the predicate is well-formed and what it denotes."""
 import random, re
 from props import calls as K
+from props import reuse as RU
 
 PID = 'C08'
 HARNESS = 'h_c08'
-HARNESS_EXTRA = ('rec.h',)
+HARNESS_EXTRA = ('rec.h', 'reuse.h')
 MODEL_MODULE = 'V.C08.Model'
 INT_MAX = 2 ** 31 - 1
 INT_MIN = -2 ** 31
@@ -40,7 +41,11 @@ RULE = ('cases = (reader options cEdge/cHeuristic/filter, a well-formed call seq
         'second short or long name, heuristic before the name, name in step 1 and heuristic in step 2 - the text `_heuristic(name,mod,bias,prio)` '
         'crosses the 63/64-byte inline buffer and the 2^8 / 2*2^8 length boundaries of the StringBuilder the converter formats it with; the same '
         'lengths as direct matcher strings; strings: well-formed predicates, 3-argument form, near misses (arity, modifier, parentheses, '
-        'overflowed numbers, blanks / plus signs in numbers), _acyc_ forms, random one-byte mutations; non-trivial = at least one heuristic / '
+        'overflowed numbers, blanks / plus signs in numbers), _acyc_ forms, random one-byte mutations; every other program (hash of the case) is read '
+        'back by a SmodelsInput OBJECT that before read or REFUSED one of 13 primer texts (harness/reuse.h: accepted plain / incremental; refused inside '
+        'the rules, inside the symbol table, after the complete symbol table, inside the compute statement, in the trailer, in a second step, as extra '
+        'input) whose symbol tables bind the generator\'s names and _atom(k) to OTHER atoms and contain _edge / _acyc_ / _heuristic predicates; '
+        'non-trivial = at least one heuristic / '
         'edge / external was delivered or expected, an expected error was observed, or a string case was judged by the reference parser; '
         'distinct = distinct case tuples')
 TRUSTED_BASE = ['props/C08.py oracle: comparison of input and delivered directives, python reference parser of the two predicates',
@@ -433,6 +438,10 @@ def _judge(case, obs):
                     break
                 if hit is None:
                     sig.append('heuristic:lost-or-changed')
+                    # the more specific shape: the directive did come back (same modifier / bias / priority / condition) but on an atom that
+                    # is neither the image of its atom nor shows its name (e.g. a name binding that is not of this program)
+                    if any((dh[2], dh[3], dh[4]) == (h[2], h[3], h[4]) and len(dh[5]) == 1 and cond_ok(dh[5][0], h[5]) for dh in free):
+                        sig.append('heuristic:bound-to-an-atom-that-does-not-carry-the-target-name')
                 else:
                     free.remove(hit)
             if free:
@@ -537,7 +546,8 @@ def nontrivial(case, obs):
 def describe(case):
     d = decode(case)
     if d[0] == 'trip':
-        return 'trip cEdge=%d cHeuristic=%d filter=%d: %s' % (d[1], d[2], d[3], K.pretty(d[5]))
+        # harness/reuse.h: every other case is read back by a SmodelsInput OBJECT that read / refused a primer text before
+        return 'trip cEdge=%d cHeuristic=%d filter=%d reader=%s: %s' % (d[1], d[2], d[3], RU.reader(case, 'smodels', True), K.pretty(d[5]))
     if d[0] in ('heu', 'edge'):
         return '%s(%r)' % ('matchDomHeuPred' if d[0] == 'heu' else 'matchEdgePred', d[1])
     return 'undecodable case'
